@@ -113,3 +113,46 @@ Fixpoint result_eqb (a b : result) : bool :=
   | _, _ => false
   end.
 Definition law_deterministic (a b : result) : bool := result_eqb a b.
+
+(* --- 108: the order law with a tolerance, for inputs on which float64
+   rounding can break an exact tie of weighted scores (or create one).  Scores
+   closer than [tol] may come in either order; nodes of the same class (same
+   utilisation entry, same warmup flag: bit-identical float scores) must still
+   keep their node-list order, so a tie-break change is still seen. --- *)
+Definition tol : Q := 1 # 1000000000.
+
+Definition opt_z_eqb (a b : option Z) : bool :=
+  match a, b with
+  | None, None => true
+  | Some x, Some y => x =? y
+  | _, _ => false
+  end.
+
+Definition same_class (look : positive -> option Z) (a b : node) : bool :=
+  opt_z_eqb (look (nname a)) (look (nname b)) && Bool.eqb (nwarm a) (nwarm b).
+
+Definition precedes_tol (look : positive -> option Z) (sc : node -> Q) (a b : inode) : bool :=
+  qgt (sc (snd a)) (sc (snd b) + tol) ||
+  (negb (qgt (sc (snd b)) (sc (snd a) + tol)) &&
+   (negb (same_class look (snd a) (snd b)) || (fst a <? fst b)%nat)).
+
+Fixpoint chain_ok_tol (look : positive -> option Z) (sc : node -> Q) (l : list inode) : bool :=
+  match l with
+  | a :: ((b :: _) as t) => precedes_tol look sc a b && chain_ok_tol look sc t
+  | _ => true
+  end.
+
+(* the left-behind check cannot use only the last pick here (the tolerant
+   relation is not transitive): every pick is compared with every skipped node *)
+Definition sched_order_tol_ok (look : positive -> option Z) (ch : list rpol) (inodes : list inode)
+           (taken l : list positive) : bool :=
+  let sc := total_score look ch in
+  match find_all inodes l with
+  | None => false
+  | Some tl =>
+    chain_ok_tol look sc tl &&
+    forallb (fun p => memb (nname (snd p)) l || forallb (fun y => precedes_tol look sc y p) tl)
+            (eligible_of look ch inodes taken)
+  end.
+
+Definition law_order_tol := per_sched sched_order_tol_ok.
